@@ -7,7 +7,7 @@ from harness import coreir as IR
 from harness.common import CoqFailure, coq_list, coq_opt, coqc_file, coqc_many, parse_nat_list, run_impl
 
 HEADER = ('From Coq Require Import List ZArith String.\n'
-          'From BT Require Import Gen.ClassTable Gen.SignSets Core.PyVal Core.Expr Core.Hint Core.Corr.\n'
+          'From BT Require Import Gen.ClassTable Gen.SignSets Core.PyVal Core.Expr Core.Hint Core.Override Core.Corr.\n'
           'Import ListNotations.\nOpen Scope string_scope.\n')
 OBS = {'T': 'VTrue', 'F': 'VFalse'}
 
@@ -39,11 +39,24 @@ def container_levels(h):
     return sum(1 for s in hint_shape(h)[1] if s.split(':')[0] in ('cont', 'map', 'counter', 'tuplefixed'))
 
 
+def coq_overrides(conf):
+    ov = ['(%s, %s)' % (IR.coq_hint(k), IR.coq_hint(v)) for k, v in (conf.get('ov') or [])]
+    return '(%s ++ %s)%%list' % (coq_list(ov), 'tower_ov' if conf.get('tower') else '[]')
+
+
+def coq_effective_hint(case):
+    """the hint the model checks: rewritten by the case's configuration, if any"""
+    conf = case.get('conf') or {}
+    if conf.get('ov') or conf.get('tower'):
+        return '(effective %s %s)' % (coq_overrides(conf), IR.coq_hint(case['hint']))
+    return IR.coq_hint(case['hint'])
+
+
 def coq_case(case, draw, obs, sat):
     v = obs['verdict']
     return ('{| k_random := %s; k_hint := %s; k_val := %s; k_draw := (%d)%%Z; k_verdict := %s; k_trace := %s; '
             'k_sat := %s |}' % (
-                'true' if case['is_random'] else 'false', IR.coq_hint(case['hint']), IR.coq_val(case['value']),
+                'true' if case['is_random'] else 'false', coq_effective_hint(case), IR.coq_val(case['value']),
                 draw, OBS.get(v, 'VExc'),
                 coq_list([f'({k}, c_{c})%nat' for k, c in obs['trace']]),
                 coq_opt(sat, lambda b: 'true' if b else 'false')))
@@ -176,7 +189,8 @@ def structural(ctx, tag, hints_and_modes):
     the term the model generator produces, plus the parser errors"""
     import subprocess
     from harness.common import PY, VERIF, impl_env
-    payload = {'cases': [{'hint': h, 'is_random': r} for h, r in hints_and_modes]}
+    hints_and_modes = [tuple(x) + (None,) * (3 - len(x)) for x in hints_and_modes]
+    payload = {'cases': [{'hint': h, 'is_random': r, 'conf': cf} for h, r, cf in hints_and_modes]}
     p = subprocess.run([PY, os.path.join(VERIF, 'harness', 'translate', 'parse_generated.py')],
                        input=json.dumps(payload), capture_output=True, text=True, env=impl_env(), timeout=900)
     if p.returncode != 0:
@@ -187,7 +201,8 @@ def structural(ctx, tag, hints_and_modes):
     bad = []
     for lo in range(0, len(todo), 300):
         idx = todo[lo:lo + 300]
-        rows = ['(%s, %s, %s)' % ('true' if hints_and_modes[i][1] else 'false', IR.coq_hint(hints_and_modes[i][0]),
+        rows = ['(%s, %s, %s)' % ('true' if hints_and_modes[i][1] else 'false',
+                                  coq_effective_hint({'hint': hints_and_modes[i][0], 'conf': hints_and_modes[i][2]}),
                                   terms[i]) for i in idx]
         text = HEADER + 'Definition rows : list (bool * hint * expr) := %s.\n' % coq_list(['\n ' + r for r in rows]) + \
             'Eval vm_compute in (struct_failing rows).\n'
